@@ -463,7 +463,7 @@ class Parser:
         :return: True on success (no error detected), False otherwise
         """
         if isinstance(text, str):
-            text = text.encode("utf-8")
+            text = text.encode("utf-8", "surrogatepass")
 
         self.__reset_parser()
         try:
